@@ -1180,6 +1180,90 @@ Proof.
   - apply (tally_aborts_at_blocker _ h a (Inv_run ops) Hin Hc). now apply refused_blocks.
 Qed.
 
+(** * Can the counted power exceed the total?  Not when staking is consistent.
+
+    TryAttestation adds [GetLastValidatorPower] of every voter (0 for an operator without a power
+    record: a validator that left the bonded set, or whose staking record was removed) and compares
+    with [GetLastTotalPower].  Staking writes both in one place (ApplyAndReturnValidatorSetUpdates):
+    the total is the sum of the recorded powers, none negative.  Under exactly that reading of the
+    collaborator the power of distinct voters never exceeds the total, and two sets of voters that
+    both pass the threshold share a validator. *)
+Definition staking_consistent (p : list (Z * Z)) (t : Z) : Prop :=
+  (forall kv, In kv p -> 0 <= snd kv) /\ t = zsum (map snd p).
+
+Lemma zget0_nonneg l v : (forall kv, In kv l -> 0 <= snd kv) -> 0 <= zget0 l v.
+Proof.
+  unfold zget0. induction l as [|[k x] r IH]; simpl; intros H; [lia|].
+  destruct (v =? k); [apply (H (k, x)); now left | apply IH; intros; apply H; now right].
+Qed.
+
+Lemma ind_sum_zero k x vs : ~ In k vs -> zsum (map (fun v => if v =? k then x else 0) vs) = 0.
+Proof.
+  induction vs as [|v r IH]; simpl; intros H; [reflexivity|].
+  destruct (v =? k) eqn:E; [apply Z.eqb_eq in E; subst; tauto | rewrite IH; tauto].
+Qed.
+
+Lemma ind_sum_le k x vs : NoDup vs -> 0 <= x -> zsum (map (fun v => if v =? k then x else 0) vs) <= x.
+Proof.
+  induction vs as [|v r IH]; simpl; intros ND Hx; [lia|].
+  inversion ND; subst. destruct (v =? k) eqn:E.
+  - apply Z.eqb_eq in E. subst. rewrite ind_sum_zero; [lia | assumption].
+  - specialize (IH H2 Hx). lia.
+Qed.
+
+Lemma zget0_cons k x r v : zget0 ((k, x) :: r) v = if v =? k then x else zget0 r v.
+Proof. unfold zget0. simpl. destruct (v =? k); reflexivity. Qed.
+
+Lemma power_cons_le k x r vs : (forall kv, In kv r -> 0 <= snd kv) ->
+  power ((k, x) :: r) vs <= zsum (map (fun v => if v =? k then x else 0) vs) + power r vs.
+Proof.
+  intros H. unfold power. induction vs as [|v vs IH]; [simpl; lia|].
+  cbn [map zsum]. rewrite zget0_cons. pose proof (zget0_nonneg r v H).
+  destruct (v =? k); lia.
+Qed.
+
+Lemma power_le_sum p : forall vs, (forall kv, In kv p -> 0 <= snd kv) -> NoDup vs -> power p vs <= zsum (map snd p).
+Proof.
+  induction p as [|[k x] r IH]; intros vs H ND.
+  - unfold power. simpl. induction vs; simpl; [lia|]. inversion ND; subst. unfold zget0 at 1. simpl. auto.
+  - simpl. assert (Hr : forall kv, In kv r -> 0 <= snd kv) by (intros; apply H; now right).
+    pose proof (power_cons_le k x r vs Hr). pose proof (ind_sum_le k x vs ND (H (k, x) (or_introl eq_refl))).
+    specialize (IH vs Hr ND). lia.
+Qed.
+
+Lemma counted_power_le_total p t vs : staking_consistent p t -> NoDup vs -> power p vs <= t.
+Proof. intros [H ->] ND. now apply power_le_sum. Qed.
+
+Lemma NoDup_app_disjoint {A} (l1 l2 : list A) :
+  NoDup l1 -> NoDup l2 -> (forall x, In x l1 -> ~ In x l2) -> NoDup (l1 ++ l2).
+Proof.
+  induction l1 as [|a r IH]; simpl; intros N1 N2 D; [exact N2|].
+  inversion N1; subst. constructor.
+  - rewrite in_app_iff. intros [H|H]; [tauto | apply (D a); auto].
+  - apply IH; auto.
+Qed.
+
+Lemma common_or_disjoint (l1 l2 : list Z) :
+  (exists v, In v l1 /\ In v l2) \/ (forall v, In v l1 -> ~ In v l2).
+Proof.
+  induction l1 as [|a r IH]; [right; simpl; tauto|].
+  destruct (in_dec Z.eq_dec a l2) as [Hi|Hn]; [left; exists a; simpl; auto|].
+  destruct IH as [(v & H1 & H2)|D]; [left; exists v; simpl; auto|].
+  right. intros v [->|Hv]; auto.
+Qed.
+
+(** Two sets of distinct voters that each hold more than 66 % share a validator. *)
+Lemma quorums_intersect p t vs1 vs2 : staking_consistent p t -> NoDup vs1 -> NoDup vs2 ->
+  100 * power p vs1 > 66 * t -> 100 * power p vs2 > 66 * t -> exists v, In v vs1 /\ In v vs2.
+Proof.
+  intros C N1 N2 Q1 Q2. destruct (common_or_disjoint vs1 vs2) as [E|D]; [exact E|exfalso].
+  pose proof (counted_power_le_total p t (vs1 ++ vs2) C (NoDup_app_disjoint _ _ N1 N2 D)) as L.
+  unfold power in *. rewrite map_app, zsum_app in L.
+  assert (0 <= t). { destruct C as [H ->]. apply zsum_nonneg. apply Forall_forall. intros x Hx.
+    apply in_map_iff in Hx as (kv & <- & Hk). now apply H. }
+  lia.
+Qed.
+
 (** * Genesis export + import as an operation of the histories: what it keeps and what it drops *)
 Lemma regenesis_facts s :
   last_obs (regenesis s) = last_obs s /\ applied (regenesis s) = applied s /\ epoch (regenesis s) = epoch s /\
